@@ -213,6 +213,23 @@ pub fn run(args: &Args) -> Report {
                         continue;
                     }
                     let wtext = std::fs::read_to_string(&out).unwrap_or_default();
+                    // tie with the Lean model of the writer's include logic: the items in the writer's order (after sort():
+                    // by name) with the file they came from -> the directives / elements the writer emits
+                    {
+                        let mut items: Vec<(String, &str)> = a.iter().map(|n| (n.to_string(), "one.a2l")).chain(b.iter().map(|n| (n.to_string(), "two.a2l"))).collect();
+                        items.sort();
+                        let req = items.iter().map(|(n, f)| format!("{}:{}", hex(n.as_bytes()), hex(f.as_bytes()))).collect::<Vec<_>>().join(",");
+                        let mut entries: Vec<String> = vec![];
+                        let toks: Vec<&str> = wtext.split_whitespace().collect();
+                        for w in 0..toks.len() {
+                            if toks[w] == "/include" && w + 1 < toks.len() {
+                                entries.push(format!("I{}", hex(toks[w + 1].trim_matches('"').as_bytes())));
+                            } else if toks[w] == "/begin" && w + 2 < toks.len() && toks[w + 1] == "MEASUREMENT" {
+                                entries.push(format!("E{}", hex(toks[w + 2].as_bytes())));
+                            }
+                        }
+                        rep.tie(format!("incw {req}"), entries.join(","));
+                    }
                     for inc in ["one.a2l", "two.a2l"] {
                         let cnt = wtext.matches(&format!("/include \"{inc}\"")).count();
                         if cnt != 1 {
@@ -230,6 +247,74 @@ pub fn run(args: &Args) -> Report {
                     }
                 }
                 Ok(Err(e)) => rep.fail("generator", input.clone(), format!("fixed scenario does not load: {e}")),
+                Err(p) => rep.fail("panic", input.clone(), p),
+            }
+        }
+        // (1b) the same at random: 1-4 include files, own elements of the main file in front of the directives, with and
+        //      without sort(); written directives / elements against the Lean model of the writer's include logic
+        for k in 0..(if args.thorough { 600 } else { 80 }) {
+            let nfiles = 1 + rng.below(4);
+            let mut pool: Vec<String> = (0..16).map(|i| format!("{}{i}", ["q", "b", "z", "a"][rng.below(4)])).collect();
+            let mut take = |rng: &mut Rng, n: usize| -> Vec<String> { (0..n).filter_map(|_| if pool.is_empty() { None } else { Some(pool.remove(rng.below(pool.len()))) }).collect() };
+            let nown = rng.below(4);
+            let own = take(&mut rng, nown);
+            let per_file: Vec<Vec<String>> = (0..nfiles).map(|_| { let n = 1 + rng.below(4); take(&mut rng, n) }).collect();
+            let dir = root.join(format!("incw{k}"));
+            let fname = |i: usize| format!("f{i}.a2l");
+            let mut files = vec![(
+                "main.a2l".to_string(),
+                format!("ASAP2_VERSION 1 71\n/begin PROJECT p \"\"\n/begin MODULE m \"\"\n{}{}/end MODULE\n/end PROJECT\n", own.iter().map(|n| meas(n)).collect::<String>(), (0..nfiles).map(|i| format!("/include \"{}\"\n", fname(i))).collect::<String>()),
+            )];
+            for (i, names) in per_file.iter().enumerate() {
+                files.push((fname(i), names.iter().map(|n| meas(n)).collect()));
+            }
+            write_files(&dir, &files);
+            let input = format!("fixed:include-writer:{k}");
+            std::fs::write(&current, &input).ok();
+            rep.case(&(k, &files), true);
+            rep.bump("include-writer");
+            let sorted = rng.chance(1, 2);
+            let Ok(Ok((mut f, _))) = catch(|| a2lfile::load(dir.join("main.a2l"), None, false)) else {
+                rep.fail("generator", input.clone(), "include-writer scenario does not load".into());
+                continue;
+            };
+            if sorted && catch(std::panic::AssertUnwindSafe(|| f.sort())).is_err() {
+                rep.fail("panic", input.clone(), "sort() panicked".into());
+                continue;
+            }
+            let out = dir.join("out.a2l");
+            if f.write(&out, None).is_err() {
+                continue;
+            }
+            let wtext = std::fs::read_to_string(&out).unwrap_or_default();
+            let mut items: Vec<(String, Option<String>)> = own.iter().map(|n| (n.clone(), None)).collect();
+            for (i, names) in per_file.iter().enumerate() {
+                items.extend(names.iter().map(|n| (n.clone(), Some(fname(i)))));
+            }
+            if sorted {
+                items.sort();
+            }
+            let req = items.iter().map(|(n, f)| format!("{}:{}", hex(n.as_bytes()), f.as_ref().map_or("!".to_string(), |f| hex(f.as_bytes())))).collect::<Vec<_>>().join(",");
+            let mut entries: Vec<String> = vec![];
+            let toks: Vec<&str> = wtext.split_whitespace().collect();
+            for w in 0..toks.len() {
+                if toks[w] == "/include" && w + 1 < toks.len() {
+                    entries.push(format!("I{}", hex(toks[w + 1].trim_matches('"').as_bytes())));
+                } else if toks[w] == "/begin" && w + 2 < toks.len() && toks[w + 1] == "MEASUREMENT" {
+                    entries.push(format!("E{}", hex(toks[w + 2].as_bytes())));
+                }
+            }
+            rep.tie(format!("incw {req}"), entries.join(","));
+            // and the property itself: the written file reloads to the same set of elements
+            let mut want = names(&f);
+            want.sort();
+            match catch(|| a2lfile::load(&out, None, false)) {
+                Ok(Ok((f2, _))) => {
+                    if names(&f2) != want {
+                        rep.fail("reload", input.clone(), format!("the written file (sorted: {sorted}) reloads to the elements {:?}, the model held {want:?}", names(&f2)));
+                    }
+                }
+                Ok(Err(e)) => rep.fail("reload", input.clone(), format!("the written file (sorted: {sorted}) does not load: {e}")),
                 Err(p) => rep.fail("panic", input.clone(), p),
             }
         }
